@@ -22,27 +22,45 @@ def proof_part(rep, prop, trusted_extra=()):
                       theorem='Properties_%s.v' % prop, found_input=False)
     return pr['ok']
 
-def correspondence(rep, work, cases, project=None, flavor='plain', label='correspondence', shared=None,
-                   max_report=3, cxx_extra=(), sig=None):
-    """Run every case on both sides; report the first differing line per disagreeing case.
-    project(line)->line|None narrows the comparison to the property's projection.
-    Returns (cxx_results, model_results, n_disagreements)."""
-    (c, cown, cerr), (m, mown, merr) = harness.run_both(cases, work, shared=shared, flavor=flavor, cxx_extra=cxx_extra)
-    scripts = dict(cases)
+def correspondence(rep, work, cases, select=None, project=None, flavor='plain', label='correspondence', shared=None,
+                   max_report=3, cxx_extra=(), sig=None, results=None):
+    """Run every case on both sides (or take results=(cxx, model)); compare, operation by operation, the
+    output of the operations chosen by select(script_line) (default: all), each output line passed
+    through project(line) (None drops it).  This is how a property's tie is kept as narrow as its theorem.
+    Returns ((cxx, cxx_owns), (model, model_owns), n_disagreements)."""
+    if results is None:
+        (c, cown, cerr), (m, mown, merr) = harness.run_both(cases, work, shared=shared, flavor=flavor, cxx_extra=cxx_extra)
+    else:
+        (c, cown), (m, mown) = results
     nd = 0
     for cid, lines in cases:
         cl, cs = c.get(cid, ([], 'missing'))
         ml, ms = m.get(cid, ([], 'missing'))
-        if project:
-            cl2 = [x for x in (project(l) for l in cl) if x is not None]
-            ml2 = [x for x in (project(l) for l in ml) if x is not None]
+        d = None
+        if select is None and project is None:
+            d = harness.compare_case(cl, cs, ml, ms)
         else:
-            cl2, ml2 = cl, ml
-        d = harness.compare_case(cl2, cs, ml2, ms)
+            co = harness.split_ops(lines, cl); mo = harness.split_ops(lines, ml)
+            for k, ((ln, a), (_, b)) in enumerate(zip(co, mo)):
+                if select is not None and not select(ln): continue
+                if b is None and ms.startswith('ub:'): break      # model: undefined behaviour from here on
+                if project is not None:
+                    a = None if a is None else [x for x in (project(l) for l in a) if x is not None]
+                    b = None if b is None else [x for x in (project(l) for l in b) if x is not None]
+                if a != b:
+                    j = 0
+                    if a and b:
+                        while j < min(len(a), len(b)) and a[j] == b[j]: j += 1
+                    d = dict(op_index=k, op=ln[:300], line=j,
+                             cxx=(a[j] if a and j < len(a) else '<end:%s>' % cs)[:400],
+                             model=(b[j] if b and j < len(b) else '<end:%s>' % ms)[:400])
+                    break
+            if d is None and not ms.startswith('ub:') and cs != ms and (cs.startswith('signal') or ms != 'exit:0' or cs != 'exit:0'):
+                d = dict(line=-1, cxx='<end:%s>' % cs, model='<end:%s>' % ms)
         if d is not None:
             nd += 1
             if nd <= max_report:
-                rep.violation(label, 'model and implementation differ at output line %d' % d['line'],
+                rep.violation(label, 'model and implementation differ (%s)' % (d.get('op', 'output line %s' % d.get('line')),),
                               script=lines, theorem='correspondence of the model with /repo (%s)' % label,
                               found_input=False, signature=sig,
                               extra=dict(first_difference=d, case=cid))
